@@ -109,10 +109,47 @@ def sweep(rng, n):
     return fails, dist
 
 
+HISTORY_CASES = [
+    # text, edit, leading keyword after the edit
+    ('select a from t', 'prepend-insert', 'INSERT'),
+    ('update t set a = 1', 'replace-first', 'DELETE'),
+    ('with c as (select 1) select * from c', 'replace-dml-after-cte', 'DELETE'),
+]
+
+
+def history_failures():
+    """get_type() is asked, the tree is edited through the tree API, get_type() is asked again: the second answer names the
+    leading keyword of the tree as it is now (what a fresh parse of str(stmt) answers)"""
+    import sqlparse
+    from sqlparse import sql, tokens as T
+    out = []
+    for text, edit, want in HISTORY_CASES:
+        try:
+            st = sqlparse.parse(text)[0]
+            st.get_type()
+            if edit == 'prepend-insert':
+                st.insert_before(0, sql.Token(T.Whitespace, ' '))
+                st.insert_before(0, sql.Token(T.Keyword.DML, 'insert'))
+            elif edit == 'replace-first':
+                st.tokens[0] = sql.Token(T.Keyword.DML, 'delete')
+                st.tokens[0].parent = st
+            else:
+                i = next(k for k, t in enumerate(st.tokens) if t.ttype is T.Keyword.DML)
+                st.tokens[i] = sql.Token(T.Keyword.DML, 'delete')
+                st.tokens[i].parent = st
+            got = st.get_type()
+        except Exception as e:  # noqa
+            got = 'exception ' + type(e).__name__
+        if got != want:
+            out.append({'input': [ord(c) for c in text], 'history': 'get_type(); %s; get_type()' % edit, 'expected': want,
+                        'observed': 'after the edit get_type() = %r, the leading keyword is now %r' % (got, want)})
+    return out
+
+
 def run(ctx):
     n = ctx.n(4000, 50000)
     fails, dist = sweep(ctx.rng, n)
-    fails = fails + common.threshold_failures('C18', ctx.quick())
+    fails = fails + common.threshold_failures('C18', ctx.quick()) + history_failures()[:1]
     c = A.corr(ctx.rng, ctx.n(1200, 12000))
     return {'failures': fails, 'disagreements': c['disagreements'][:20],
             'evaluations': n + c['evaluations'], 'distinct_nontrivial': c['distinct_nontrivial'],
@@ -133,6 +170,9 @@ def run_oracle_only(ctx):
 def search(ctx, hints):
     import time
     known = [k for k in vlib.load_known_findings() if k.get('property') == 'C18' and k.get('status') == 'open']
+    h = history_failures()
+    if h:
+        return {'failures': h[:1], 'tried': len(HISTORY_CASES)}
     t0, tried = time.time(), 0
     while time.time() - t0 < ctx.n(60, 600):
         fails, _ = sweep(ctx.rng, 500)
@@ -170,6 +210,9 @@ def replay(payload):
     if _f.get('threshold_input'):
         return common.threshold_replay('C18', _f)
     f = payload.get('failure')
+    if f and f.get('history'):
+        g = [x for x in history_failures() if x['input'] == f.get('input')]
+        return {'fails': bool(g), 'observed': g[:1]}
     if not f or 'input' not in f:
         return {'fails': False, 'note': 'no concrete input: ' + str(payload.get('no_longer_checks'))}
     d = A.c18_check_text(''.join(map(chr, f['input'])), f.get('expected'))
